@@ -172,6 +172,7 @@ type B struct {
 	insts []*inst
 	hits  map[string]int
 
+	exMode int  // real-parallelism rounds: 0 executors as generated, 1 every node inline, 2 every node on the default executor, 3 every node on the harness queue
 	memoOn bool // dag trees: remember the future of every node instance for "ref" leaves
 	memo   map[string]fp.Future[int]
 
@@ -202,7 +203,16 @@ func (b *B) hit(name string) {
 }
 
 func (b *B) ex(n *Node) []fp.Executor {
-	switch n.Ex {
+	e := n.Ex
+	switch b.exMode {
+	case 1:
+		e = 1
+	case 2:
+		e = 0
+	case 3:
+		e = 2
+	}
+	switch e {
 	case 1:
 		return []fp.Executor{inlineExec{}}
 	case 2:
